@@ -238,7 +238,7 @@ func (b *listParser) Continue(node ast.Node, reader text.Reader, pc Context) Sta
 	//   foo
 	//
 	// -> 1 list with 1 blank items and 1 paragraph
-	if pc.Get(emptyListItemWithBlankLines) != nil {
+	if lastIsEmpty && pc.Get(emptyListItemWithBlankLines) != nil {
 		return Close
 	}
 	return Continue | HasChildren
